@@ -109,7 +109,7 @@ def check(spec, ctx):
     else:
         edges = [tuple(e) for e in spec["edges"]]
     eset = {frozenset(e) for e in edges}
-    ret_kind = (spec.get("mask", 0) + len(spec.get("edges", []))) % 3
+    ret_kind = (spec.get("mask", 0) + len(spec.get("edges", []))) % 6
     variant = (spec.get("mask", 0) // 3 + len(spec.get("edges", [])) // 2 + n) % 4
     events = list(_events(n, variant))
     for i, j in spec.get("copies", []):
@@ -125,7 +125,9 @@ def check(spec, ctx):
             return False
         ans = frozenset((ia, ib)) in eset
         # callers' comparison functions return whatever their arithmetic returns: bool, numpy.bool_ or 0/1
-        return {0: ans, 1: np.bool_(ans), 2: int(ans)}[ret_kind]
+        # ... or a similarity score (truthy when positive), or nothing at all for "not similar" (a function that falls off its end),
+        # or the collection of what the two events share: the answer is taken by its truth value
+        return {0: ans, 1: np.bool_(ans), 2: int(ans), 3: (0.375 if ans else 0.0), 4: (True if ans else None), 5: ({"shared"} if ans else set())}[ret_kind]
 
     exp = components(n, edges)
     deg = {}
